@@ -54,6 +54,28 @@ func (state *State) BlockIsToBeRequested(hash *bitcoin.Hash32) bool {
 	return false
 }
 
+// BlockIsPending returns true if the block is requested, is to be requested, or has been taken by
+// NextBlock and is still being processed. It is one step, so a block the block processor moves from
+// one of those to the next at the same time is not missed.
+func (state *State) BlockIsPending(hash *bitcoin.Hash32) bool {
+	state.lock.Lock()
+	defer state.lock.Unlock()
+
+	for _, item := range state.blocksRequested {
+		if item.hash == *hash {
+			return true
+		}
+	}
+
+	for _, item := range state.blocksToRequest {
+		if item == *hash {
+			return true
+		}
+	}
+
+	return state.processingHash != nil && state.processingHash.Equal(hash)
+}
+
 // AddBlockRequest adds a block request to the queue.
 // Returns true if the request should be made now.
 // Returns false if the request is queued for later as requests are completed.
